@@ -26,6 +26,16 @@ ASSUMPTIONS = ["reference model + AD trusted after self-test", "cases whose refe
 def strategy_(g):
     case = GG.gen(g, n_pose=(2, 8), n_lm=(0, 3), n_loops=(0, 3), conds=(1.0, 1e2, 1e3), noise=(0.05, 0.05), pert=(0.3, 0.3))
     case["n_steps"] = g.choice([1, 1, 2, 3])
+    # free vertices may start far away in translation (exact Gauss-Newton steps of 1e2..1e5 units)
+    P = g.choice([0.0, 0.0, 0.0, 1e2, 1e5])
+    case["meta"]["init_displacement"] = P
+    if P:
+        ff = case["fix_first"]
+        for i, v in enumerate(case["verts"]):
+            if v["fixed"] or (ff and i == 0):
+                continue
+            n = R.PDIM[v["p"]["k"]]
+            v["p"]["v"][:n] = [t + g.rnd.uniform(-P, P) for t in v["p"]["v"][:n]]
     return case
 
 
